@@ -465,6 +465,10 @@ package jsonpatch
 //@   invariant tree: rNoNullKids()
 
 //@ func merge
+//@   bind e1 = intoDoc#1.1
+//@   bind e2 = intoDoc#2.1
+//@   ensures[C19] a-non-object-is-replaced-by-the-patch: (reached(intoDoc#1) && e1 != nil) || (reached(intoDoc#2) && e2 != nil) ==> result == patch
+//@   ensures[C19] two-objects-are-merged-in-place: reached(intoDoc#2) && e2 == nil ==> result == cur && reached(mergeDocs#1)
 //@   callees[C19] intoDoc, pruneNulls, mergeDocs
 //@   callsite[C19] pruneNulls#1 prunes-only-a-patch-that-replaces-a-non-object: err != nil
 //@   requires nodes: cur != nil && patch != nil && rNodeOK(cur) && rNodeOK(patch) && rTextOK(cur) && rTextOK(patch)
